@@ -22,7 +22,7 @@ var effectFreeFuncs = map[string]bool{
 	"(*sync.WaitGroup).Add": true, "(*sync.WaitGroup).Done": true, "(*sync.WaitGroup).Wait": true,
 	"(*sync.Once).Do": false,
 	"(*sync.Pool).Put": true, "(*sync.Cond).Broadcast": true, "(*sync.Cond).Signal": true,
-	"errors.New": true,
+	"errors.New": true, "fmt.Errorf": true,
 }
 
 func pkgPathOf(fn *ssa.Function) string {
@@ -130,6 +130,11 @@ func (e *Enc) call(fr *Frame, ins *ssa.Call, c *ssa.CallCommon, guard T, st *Sta
 			return
 		}
 		if e.effectFreeCall(c) {
+			setRes(e.freshResults(c.Signature(), ins.Name()))
+			return
+		}
+		if e.contract != nil && e.contract.Opts["dyncalls"] == "pure" {
+			e.noteAssumed(e.fnName + ": interface call " + key + " has no effect on modelled state (opt dyncalls=pure)")
 			setRes(e.freshResults(c.Signature(), ins.Name()))
 			return
 		}
@@ -336,7 +341,7 @@ func (e *Enc) autoInline(fn *ssa.Function, depth int) bool {
 		// atomics and math helpers still are
 		return false
 	}
-	ok := strings.HasPrefix(p, "github.com/prometheus/prometheus") || p == "sync/atomic" || p == "go.uber.org/atomic" || p == "math" || p == "math/bits" || p == "cmp"
+	ok := strings.HasPrefix(p, "github.com/prometheus/prometheus") || p == "sync/atomic" || p == "go.uber.org/atomic" || p == "math" || p == "math/bits" || p == "cmp" || p == "encoding/binary"
 	if !ok {
 		return false
 	}
@@ -575,11 +580,17 @@ func (e *Enc) havocLvalue(sc *Scope, x CExpr, st *State) {
 			}
 			return
 		}
-		sl, ok := base.Typ.Underlying().(*types.Slice)
-		if !ok {
+		var rowRef T
+		var elemT types.Type
+		if sl, ok := base.Typ.Underlying().(*types.Slice); ok {
+			rowRef, elemT = base.L[0], sl.Elem()
+		} else if r, et, ok := e.arrayFieldRow(sc, bx); ok {
+			rowRef, elemT = r, et
+		} else {
 			panic(unsupported("modifies target not a slice: " + x.String()))
 		}
-		p := Val{Typ: types.NewPointer(types.NewArray(sl.Elem(), 0)), L: []T{base.L[0]}, P: &PtrInfo{Space: "E", Root: sl.Elem(), Prefix: ""}}
+		sl := types.NewSlice(elemT)
+		p := Val{Typ: types.NewPointer(types.NewArray(sl.Elem(), 0)), L: []T{rowRef}, P: &PtrInfo{Space: "E", Root: sl.Elem(), Prefix: ""}}
 		e.st = st
 		at := types.NewArray(sl.Elem(), 1)
 		e.storeAt(st, p, e.freshValNoInv(at, "modrow"))
@@ -595,6 +606,31 @@ func (e *Enc) havocLvalue(sc *Scope, x CExpr, st *State) {
 	default:
 		panic(unsupported("modifies target: " + x.String()))
 	}
+}
+
+// arrayFieldRow resolves `obj.arr` (an array-typed field with scalar elements) to the backing-store
+// row that models it (see fieldArray).
+func (e *Enc) arrayFieldRow(sc *Scope, x CExpr) (T, types.Type, bool) {
+	a, ok := e.evalAddr(sc, x)
+	if !ok {
+		return T{}, nil, false
+	}
+	pt, ok := a.Typ.Underlying().(*types.Pointer)
+	if !ok {
+		return T{}, nil, false
+	}
+	at, ok := pt.Elem().Underlying().(*types.Array)
+	if !ok || opaqueTypes[typeKey(pt.Elem())] {
+		return T{}, nil, false
+	}
+	if _, basic := at.Elem().Underlying().(*types.Basic); !basic {
+		return T{}, nil, false
+	}
+	space, root, prefix, idxs, _ := e.ptrParts(a)
+	if space != "H" || len(idxs) != 0 || strings.Contains(prefix, "[]") {
+		return T{}, nil, false
+	}
+	return e.fieldArrayRef(root, prefix+"[]", a.L[0]), at.Elem(), true
 }
 
 func (e *Enc) freshValNoInv(t types.Type, hint string) Val {
